@@ -20,7 +20,14 @@ def one_parse(req):
     try:
         nl = parse(req['s'], ctx=ctx, tolerant=req['tolerant'], parser=parser)
     except LatexWalkerParseError as e:
-        return {'outcome': 'parse_error', 'pos': getattr(e, 'pos', None), 'msg': str(getattr(e, 'msg', ''))[:120]}
+        # the whole error report is part of the result: position, line/column, message, and the open blocks it lists
+        import re
+        oc = []
+        for c in (getattr(e, 'open_contexts', None) or []):
+            oc.append(re.sub(r'0x[0-9a-fA-F]+|\b\d{9,}\b', 'ID', repr(c))[:160])
+        return {'outcome': 'parse_error', 'pos': getattr(e, 'pos', None), 'msg': str(getattr(e, 'msg', ''))[:120],
+                'lineno': getattr(e, 'lineno', None), 'colno': getattr(e, 'colno', None), 'open_contexts': oc,
+                'report': re.sub(r'0x[0-9a-fA-F]+|\b\d{9,}\b', 'ID', str(e))[:600]}
     except Exception as e:
         return {'outcome': 'exception', 'type': type(e).__name__}
     if nl is None:
